@@ -55,7 +55,7 @@ let rec node (x : node) : string =
   | NSet es -> "(set" ^ nodes es ^ ")"
   | NMap kvs ->
       (* the Go map keeps one entry per distinct key NODE (pointer identity), so all pairs are kept *)
-      let ps = List.sort compare (List.map (fun (k, v) -> "(" ^ node k ^ " " ^ node v ^ ")") kvs) in
+      let ps = List.map (fun (k, v) -> "(" ^ node k ^ " " ^ node v ^ ")") kvs in   (* source order *)
       "(map" ^ String.concat "" (List.map (fun p -> " " ^ p) ps) ^ ")"
   | NVar (nm, v) -> "(var " ^ h nm ^ " " ^ node v ^ ")"
   | NMultiVar (ns, v, w) -> "(mvar (names" ^ String.concat "" (List.map (fun p -> " " ^ h p) ns) ^ ") " ^ node v ^ (if w then " #t)" else " #f)")
